@@ -39,6 +39,12 @@ pub fn workload(seed: u64, shard: usize, of: usize, cases: usize, miri: bool) ->
         if input.len() > (if miri { 200 } else { 20_000 }) {
             input.truncate(if miri { 200 } else { 20_000 });
         }
+        if !miri && n % 5 == 4 {
+            // tens of KiB with multi-byte characters on every alignment around the
+            // 8 KiB / 16 KiB read sizes: libyaml then asks for fewer bytes than its buffer holds
+            input = corpus::boundary_yaml_text(idx).into_bytes();
+            bump("inputs_boundary_straddling", 1);
+        }
         if rng.chance(1, 6) {
             if let Ok(t) = std::str::from_utf8(&input) {
                 let enc = crate::c07::ENCS[rng.below(4)];
@@ -91,6 +97,12 @@ pub fn workload(seed: u64, shard: usize, of: usize, cases: usize, miri: bool) ->
             let mut out = Vec::new();
             let v = guarded(|| xt::translate_reader(OverReportReader { data: &input, pos: 0, excess: ex, on_call, calls: 0 }, Some(xt::Format::Yaml), to.xt(), &mut out));
             bump(&format!("over_report_api_{}", v.class()), 1);
+        }
+        // (large boundary inputs: the event-by-event stages below add nothing)
+        if input.len() > 30_000 {
+            let _ = guarded_any(|| xt::verif::yaml_chunks(SchedReader::new(&input, Sched::All), 4).len());
+            let _ = guarded_any(|| xt::verif::yaml_chunks(SchedReader::new(&input, Sched::Fixed(16384)), 4).len());
+            continue;
         }
         // 4. early drop of the parser after every event count
         let total = guarded_any(|| xt::verif::yaml_events_then_drop(SchedReader::new(&input, Sched::All), usize::MAX)).map(|x| x.0).unwrap_or(0);
@@ -370,10 +382,10 @@ pub fn run(ctx: &Ctx) -> i32 {
         acc.distinct(&i);
     }
     acc.sample(json!({"asan_shards": shards, "cases_per_shard": cases_per_shard, "miri_cases_per_shard": miri_cases, "example_shard_command": format!("{bin} workload --seed {} --shard 0 --of {shards} --cases {cases_per_shard}", ctx.seed)}));
-    let rule = format!("AddressSanitizer+LeakSanitizer: {} shards x {} corpus inputs (mixed corpus, UTF-16/32 re-encodings) each driven as YAML explicit and detected through the public API with read sizes 1..17 / random / whole, reader errors at sampled offsets, over-reporting readers (excess 1..64, first/second/third call) straight into the raw parser and the chunker via the hook and through the public API, early drop of the parser after EVERY event count, chunker abandoned after one document, re-encoder surrogate/range boundary units; Miri: {} shards x {} seed inputs of the same workload; valgrind memcheck on the release binary in the thorough tier; conservation of Parser/Event new vs drop; distinct non-trivial = inputs driven", shards, cases_per_shard, shards, miri_cases);
+    let rule = format!("AddressSanitizer+LeakSanitizer: {} shards x {} corpus inputs (mixed corpus, UTF-16/32 re-encodings, every fifth one a ~45 KiB YAML text with multi-byte characters on every alignment around the 8/16/24/32 KiB read boundaries) each driven as YAML explicit and detected through the public API with read sizes 1..17 / random / whole, reader errors at sampled offsets, over-reporting readers (excess 1..64, first/second/third call) straight into the raw parser and the chunker via the hook and through the public API, early drop of the parser after EVERY event count, chunker abandoned after one document, re-encoder surrogate/range boundary units; Miri: {} shards x {} seed inputs of the same workload; valgrind memcheck on the release binary in the thorough tier; conservation of Parser/Event new vs drop; distinct non-trivial = inputs driven", shards, cases_per_shard, shards, miri_cases);
     let mut extra = serde_json::Map::new();
     extra.insert("explanation".into(), json!("sanitizer verdict: zero AddressSanitizer/LeakSanitizer/Miri reports over the executed workload; a clean run says nothing about paths the workload did not reach"));
-    let mut f = Finish { ctx, level: "other", rule, assumptions: vec!["red-zone tools miss intra-object overflows; Miri covers part of that gap on the smaller workload".into(), "panics are an allowed outcome for contract-violating readers and are counted".into()], extra, exhaustive: false, min_distinct: 100, must_reach: vec![("leak_detector_selftest_fired".into(), 1), ("asan_shards_clean".into(), shards as u64), ("miri_shards_clean".into(), shards as u64), ("hit_READ_HANDLER_OVER_REPORT".into(), 10), ("hit_READ_HANDLER_ERROR".into(), 10), ("early_drop_points".into(), 1000)] };
+    let mut f = Finish { ctx, level: "other", rule, assumptions: vec!["red-zone tools miss intra-object overflows; Miri covers part of that gap on the smaller workload".into(), "panics are an allowed outcome for contract-violating readers and are counted".into()], extra, exhaustive: false, min_distinct: 100, must_reach: vec![("leak_detector_selftest_fired".into(), 1), ("asan_shards_clean".into(), shards as u64), ("miri_shards_clean".into(), shards as u64), ("hit_READ_HANDLER_OVER_REPORT".into(), 10), ("hit_READ_HANDLER_ERROR".into(), 10), ("early_drop_points".into(), 1000), ("inputs_boundary_straddling".into(), 50)] };
     if !acc.violations.is_empty() {
         f.must_reach.clear();
     }
